@@ -231,3 +231,23 @@ UNITS = [UnitSpec(
                clause='self-swap and self-assignment are no-ops', functions=['Buffer_swap', 'Buffer_assign_copy', 'Buffer_assign_move']),
     ],
 )]
+
+import os
+REPLAY_SOURCES = ['modules/util/buffer.cpp']
+
+def native_replay(u, t, o, w, workdir):
+    """CBMC counterexample (small world) -> representation state (capacity, read, write) + argument of the real Buffer"""
+    import replay as rp
+    ins = w.get('inputs', {})
+    def field(sfx):
+        for k, v in ins.items():
+            if k.endswith(sfx) and 'dynamic_object' in k: return rp.to_int(v)
+        return None
+    cap, r, wr = field('.buffer_size_'), field('.read_index_'), field('.write_index_')
+    n = rp.to_int(ins.get('n'), 0)
+    op = t.id
+    tries = []
+    if cap is not None and cap <= 4096 and n <= 4096:
+        tries.append(('cbmc-trace', ['op', op, cap, r or 0, wr or 0, n]))
+    tries.append(('native-search', ['search', op if op not in ('self_ops', 'dtor') else 'all']))
+    return rp.attempt('buffer', REPLAY_SOURCES, os.path.join(workdir, 'replay'), tries)
